@@ -508,6 +508,22 @@ func (x *planExec) checkSame(op *Op, res *OpResult, refID, method string) {
 		return
 	}
 	if res.Class() != "ok" {
+		// probe (not a verdict): do two rejections of the same request over the same route carry the
+		// same message? (C02 allows other wording; what the tree does is counted for the record)
+		if res.Class() == "reject" && ref.Kind == res.Kind && x.reqDigest[refID] == x.reqDigest[op.ID] {
+			if bytes.Equal(ref.Body, res.Body) {
+				x.out.Stats.Cells["rejections-compared/same-bytes"]++
+			} else {
+				x.out.Stats.Cells["rejections-compared/other-wording"]++
+				if prop == "C10" {
+					// C10 asks for "exactly the responses the same requests produce one at a time": alone
+					// and in the group the request runs under the same map order, so even the wording
+					// of a rejection has no reason to differ - unless another request's failure leaked in
+					x.violate("C10", "rejection-differs", op.ID, "C10|rejection-differs|"+method,
+						"same request, rejected both times, but with another message next to other requests (%s vs %s): %s", refID, op.ID, firstDiff(errText(ref), errText(res)))
+				}
+			}
+		}
 		return
 	}
 	if ref.Kind != res.Kind || x.reqDigest[refID] != x.reqDigest[op.ID] {
